@@ -116,7 +116,11 @@ fn run_sequence(seq: &[(Req, Fill, Restore)], r: &mut Report) {
             fs::write(layers.join("y/bin/tool"), b"t").ok(); fs::create_dir_all(layers.join("y/bin")).ok(); fs::write(layers.join("y/bin/tool"), b"t").unwrap(); fs::write(layers.join("y.toml"), b"[types]\nlaunch = true\n").unwrap(); fs::write(layers.join("y.sbom.cdx.json"), b"{}").unwrap();
             let lr = c.cached_layer(layer_name!("x"), CachedLayerDefinition { build: want_types.1, launch: want_types.0, invalid_metadata_action: &|_| InvalidMetadataAction::DeleteLayer, restored_layer_action: &|_: &GenericMetadata, _| RestoredLayerAction::KeepLayer });
             if let Ok(lr) = lr {
+                // a long value first, then the short one: the metadata file holds exactly the LAST metadata written (nothing of the longer text survives)
+                lr.write_metadata(Rich { version: "1".into(), checksum: "z".repeat(300) }).unwrap();
                 lr.write_metadata(Rich { version: "1".into(), checksum: "abc".into() }).unwrap();
+                let want: toml::Value = toml::Value::try_from(Rich { version: "1".into(), checksum: "abc".into() }).unwrap();
+                if metadata_of(&layers).as_ref() != Some(&want) { r.violation("metadata_rewritten_shorter", "after write_metadata the layer's metadata file holds exactly the metadata written last (also when it is shorter than what was there)", format!("sequence {seq:?}, step {step}: write_metadata(checksum = 300 x 'z') then write_metadata(checksum = \"abc\")"), format!("{want:?}"), format!("{:?} (file: {:?})", metadata_of(&layers), fs::read_to_string(layers.join("x.toml")).unwrap_or_default().chars().take(200).collect::<String>())); }
                 let mut env = LayerEnv::new(); env.insert(Scope::All, ModificationBehavior::Override, "A", "1"); env.insert(Scope::Process("web".into()), ModificationBehavior::Append, "B", "2");
                 lr.write_env(env).unwrap();
                 // LayerRef::write_sboms REPLACES the layer's SBOMs: afterwards exactly the given formats exist
